@@ -3,6 +3,7 @@ package sym
 import (
 	"go/types"
 	"regexp"
+	"time"
 	"strconv"
 	"strings"
 
@@ -30,6 +31,13 @@ func registerStd(e *Engine) {
 	}
 	e.reg("github.com/els0r/goProbe/v4/pkg/types/hashmap.runtimeFastrand64", func(e *Engine, st *State, cc *CallCtx) (Value, bool) {
 		return c.Const(0x9E3779B97F4A7C15, 64), true
+	})
+	e.reg("(time.Duration).Seconds", func(e *Engine, st *State, cc *CallCtx) (Value, bool) {
+		d := cc.Args[0].(*smt.Term)
+		if d.IsConst() {
+			return FloatV(time.Duration(d.SVal()).Seconds()), true
+		}
+		return FloatSym{Sec: c.SDiv(d, c.Const(1000000000, 64))}, true
 	})
 	e.reg("time.runtimeNano", func(e *Engine, st *State, cc *CallCtx) (Value, bool) { return c.Const(1000000000, 64), true })
 	e.reg("time.registerLoadFromEmbeddedTZData", nop)
